@@ -20,7 +20,9 @@ struct VTimeMap {
   explicit VTimeMap(double a) : prm{a} {}
   double toTime(double tau) const { VF_SCHED_POINT("toTime"); return prm[0] + tau * tau; }
   double toTau(double T) const { return std::sqrt(T - prm[0]); }
-  double backward(double tau, double, double gradT) const { return 2.0 * tau * gradT; }
+  // dT/dtau = 2 tau = 2 sqrt(T - a) on the branch tau > 0 the harness stays on: the rule deliberately USES the duration it is handed
+  // (the bundled maps ignore that argument, so a wrong T passed by the optimizer would otherwise be invisible)
+  double backward(double tau, double T, double gradT) const { (void)tau; return 2.0 * std::sqrt(T - prm[0]) * gradT; }
 };
 
 // ---------------- spatial maps ----------------
@@ -92,6 +94,7 @@ struct Sample { double t, tg; int seg; std::vector<double> p, v, a, j, s; };
 template <int DIM> struct RunCost {
   typedef Eigen::Matrix<double, DIM, 1> V;
   double ap = 0, av = 0, aa = 0, aj = 0, as = 0, apv = 0, bt = 0;
+  double lin = 0;     // linear part lin * (g.p + h.v) with fixed dyadic g, h: value exactly 0 at p = v = 0 while the gradient is not
   int phi = 0;        // 0: 1, 1: 1 + 0.25 sin(tg), 2: tg^2 factor
   bool segw = false;  // W_i = 1 + i/4
   std::vector<Sample> *rec = nullptr;  // optional recorder (C08); not thread safe, used serially only
@@ -104,19 +107,21 @@ template <int DIM> struct RunCost {
       case 5: r.apv = 0.5; r.ap = 0.25; break; case 6: r.bt = 0.5; break; case 7: r.ap = 0.5; r.av = 0.5; r.segw = true; break;
       case 8: r.ap = 1; r.av = 0.5; r.aa = 0.125; r.aj = 0.03125; r.as = 0.0078125; r.apv = 0.25; r.bt = 0.25; r.segw = true; r.phi = 2; break;   // ALL
       case 9: r.ap = 1; r.av = 0.5; r.aa = 0.125; r.aj = 0.03125; r.as = 0.0078125; r.apv = 0.25; r.bt = 0.25; r.segw = true; r.phi = 1; break;   // ALL with sin factor
+      case 11: r.lin = 1.0; r.ap = 0.125; r.segw = true; break;   // linear + small quadratic
       default: break;  // 10: zero cost
     }
     return r;
   }
-  static const char *mode_name(int m) { static const char *n[] = {"p^2", "v^2", "a^2", "j^2", "s^2", "p.v", "g(t_global)", "segment weight", "ALL*t_g^2", "ALL*(1+sin t_g/4)", "zero"}; return n[m]; }
+  static const char *mode_name(int m) { static const char *n[] = {"p^2", "v^2", "a^2", "j^2", "s^2", "p.v", "g(t_global)", "segment weight", "ALL*t_g^2", "ALL*(1+sin t_g/4)", "zero", "linear g.p+h.v"}; return n[m]; }
   double operator()(double t, double tg, int i, const V &p, const V &v, const V &a, const V &j, const V &s, V &gp, V &gv, V &ga, V &gj, V &gs, double &gt) const {
     VF_SCHED_POINT("runcost");
     if (rec) { Sample sm; sm.t = t; sm.tg = tg; sm.seg = i; sm.p.assign(p.data(), p.data() + DIM); sm.v.assign(v.data(), v.data() + DIM); sm.a.assign(a.data(), a.data() + DIM); sm.j.assign(j.data(), j.data() + DIM); sm.s.assign(s.data(), s.data() + DIM); rec->push_back(sm); }
     const double W = segw ? 1.0 + 0.25 * i : 1.0;
     double ph = 1, dph = 0; if (phi == 1) { ph = 1 + 0.25 * std::sin(tg); dph = 0.25 * std::cos(tg); } else if (phi == 2) { ph = tg * tg; dph = 2 * tg; }
-    const double base = 0.5 * (ap * p.squaredNorm() + av * v.squaredNorm() + aa * a.squaredNorm() + aj * j.squaredNorm() + as * s.squaredNorm()) + apv * p.dot(v);
+    V gl, hl; for (int d = 0; d < DIM; ++d) { gl(d) = 1.0 + 0.5 * d; hl(d) = 0.25 - 0.125 * d; }
+    const double base = 0.5 * (ap * p.squaredNorm() + av * v.squaredNorm() + aa * a.squaredNorm() + aj * j.squaredNorm() + as * s.squaredNorm()) + apv * p.dot(v) + lin * (gl.dot(p) + hl.dot(v));
     const double m = W * ph;
-    gp = m * (ap * p + apv * v); gv = m * (av * v + apv * p); ga = m * aa * a; gj = m * aj * j; gs = m * as * s;
+    gp = m * (ap * p + apv * v + lin * gl); gv = m * (av * v + apv * p + lin * hl); ga = m * aa * a; gj = m * aj * j; gs = m * as * s;
     gt = W * base * dph + 2 * bt * tg;
     if (pert_out >= 0) { switch (pert_out) { case 0: gp(pert_comp) += pert; break; case 1: gv(pert_comp) += pert; break; case 2: ga(pert_comp) += pert; break; case 3: gj(pert_comp) += pert; break; case 4: gs(pert_comp) += pert; break; default: gt += pert; } }
     return m * base + bt * tg * tg;
